@@ -74,6 +74,14 @@ def _owning_method(program: Program, f) -> str:
     return cur.qualname
 
 
+
+def _builds_an_object(program, f, c=None):
+    """None if the comparison method answers with a truth value on every path (delegations to an inherited __eq__
+    followed); else a description of what it builds"""
+    from .c17 import _non_bool_return
+    return _non_bool_return(program, c or f.cls, f, set())
+
+
 def check(program: Program, run: Run) -> None:
     run.explanation = (
         "The namespace decision is tabulated exhaustively for the three copies (QueryBuilder, PostgreSQL, SQLite get_sql) over "
@@ -236,6 +244,8 @@ def check(program: Program, run: Run) -> None:
                 for t in n.targets:
                     if isinstance(t, ast.Name):
                         tnames.add(t.id)
+            elif isinstance(n, ast.NamedExpr) and isinstance(n.value, ast.Attribute) and n.value.attr == "table" and isinstance(n.target, ast.Name):
+                tnames.add(n.target.id)
 
         def is_table_expr(x):
             return (isinstance(x, ast.Attribute) and x.attr == "table" and not (isinstance(x.value, ast.Name) and x.value.id == selfn)) or (
@@ -295,6 +305,31 @@ def check(program: Program, run: Run) -> None:
         run.ob("C11/R5 sources compared as whole objects", f.qualname, proj == 0 and whole >= 2, detail=f"{whole} whole-object tests, {proj} projections", where=f.loc())
     if nsites < 2:
         raise AnalysisError(f"anchor vanished: _validate_table whole-object source tests {nsites}")
+    # R5b: `table in <sources>` asks the list ELEMENT for equality first (list.__contains__ evaluates element == table), so
+    # the whole-object test is only a membership test if == of every kind of row source answers with a truth value.  A row
+    # source that is also a Term and inherits the criterion-building Term.__eq__ answers with a (truthy) criterion object:
+    # every table is then "one of the statement's own sources" and the foreign-table flag never comes on
+    sel = program.cls("Selectable")
+    nsrc = 0
+    for c in sorted(program.all_classes(), key=lambda k: k.qualname):
+        if not c.is_subclass_of(sel) or c is sel:
+            continue
+        eq = c.resolve("__eq__")
+        nsrc += 1
+        if eq is not None and any(b is not c and b is not sel and b.is_subclass_of(sel) and b.resolve("__eq__") is eq for b in c.mro):
+            continue        # judged at the row-source class it inherits the method from
+        if eq is None:
+            run.ob("C11/R5b == of a row source answers with a truth value", c.qualname, True, detail="object identity", nontrivial=False)
+            continue
+        built = _builds_an_object(program, eq, c)
+        run.ob("C11/R5b == of a row source answers with a truth value", c.qualname, built is None, detail=f"{eq.qualname}" + (f" {built}" if built else ""), where=eq.loc())
+        if built is not None:
+            run.finding(f"C11/source-equality-not-boolean:{c.qualname}",
+                        f"a {c.qualname} can be a row source (FROM item, joined item), but its == ({eq.qualname}) {built} (always truthy): "
+                        f"`table in sources` is true for every table once a {c.qualname} is among the sources, so a reference to an outer table never sets the foreign-table flag "
+                        "and is written without its qualifier", where=eq.loc(), rule="R5")
+    if nsrc < 3:
+        raise AnalysisError(f"instance count below floor: row-source classes {nsrc}")
 
     # ---- R6: _validate_table looks at criterion.fields_(); a reference inside a child that nodes_() does not yield is
     # invisible to it, the foreign-table flag stays off and the statement's columns are written bare
